@@ -1,7 +1,7 @@
 #!/bin/bash
 # runall.sh [tier] [seed] [jobs] — run every registered check; print one line per check.
 TIER=${1:-quick}; SEED=${2:-1}; JOBS=${3:-4}
-cd /verif
+cd "$(dirname "$0")/.."
 ids=$(jq -r '.checks[].property_id' MANIFEST.json)
 run() { id=$1; s=$(date +%s); out=$(VERIF_SEED=$SEED ./check $id $TIER 2>&1 | grep '^OK\|^VIOLATION\|^INCONCLUSIVE\|^KNOWN' | head -3 | cut -c1-220); echo "$id rc=$? $(( $(date +%s)-s ))s | $out"; }
 export -f run; export SEED TIER
